@@ -280,19 +280,27 @@ func authenticator(mode string, rng *rand.Rand) vgirpc.AuthenticateFunc {
 		cur.mu.Lock()
 		cur.auths++
 		cur.mu.Unlock()
-		switch mode {
+		// "<kind>_ctx": the authenticator identified the caller and still rejects,
+		// returning the context together with the error. The error is the verdict.
+		var who *vgirpc.AuthContext
+		kind := mode
+		if strings.HasSuffix(mode, "_ctx") {
+			kind = strings.TrimSuffix(mode, "_ctx")
+			who = &vgirpc.AuthContext{Domain: "test", Authenticated: true, Principal: "alice"}
+		}
+		switch kind {
 		case "accept":
 			return &vgirpc.AuthContext{Domain: "test", Authenticated: true, Principal: "alice"}, nil
 		case "authfail":
-			return nil, vgirpc.NewAuthFailure(authReasons[rng.Intn(len(authReasons))], "scripted")
+			return who, vgirpc.NewAuthFailure(authReasons[rng.Intn(len(authReasons))], "scripted")
 		case "valueerr":
-			return nil, &vgirpc.RpcError{Type: "ValueError", Message: "scripted"}
+			return who, &vgirpc.RpcError{Type: "ValueError", Message: "scripted"}
 		case "permerr":
-			return nil, &vgirpc.RpcError{Type: "PermissionError", Message: "scripted"}
+			return who, &vgirpc.RpcError{Type: "PermissionError", Message: "scripted"}
 		case "unavail":
-			return nil, &vgirpc.AuthUnavailableError{Detail: "scripted outage", RetryAfter: rng.Intn(3) * 7}
+			return who, &vgirpc.AuthUnavailableError{Detail: "scripted outage", RetryAfter: rng.Intn(3) * 7}
 		default:
-			return nil, errors.New("scripted authenticator bug")
+			return who, errors.New("scripted authenticator bug")
 		}
 	}
 }
